@@ -459,8 +459,17 @@ func c16KeyFile(t *rapid.T) {
 	}
 	defer os.RemoveAll(dir)
 	var lines []string
+	hasEmptyKey := false
 	for _, k := range s.keys {
 		lines = append(lines, k.key)
+		hasEmptyKey = hasEmptyKey || k.key == ""
+	}
+	if !hasEmptyKey && len(lines) > 1 && rapid.Bool().Draw(t, "blankLines") {
+		// blank lines in the key file name the (absent) key "": they cost nothing and must not end the scan early
+		for i := rapid.IntRange(1, 3).Draw(t, "nblank"); i > 0; i-- {
+			at := rapid.IntRange(0, len(lines)-1).Draw(t, "blankAt")
+			lines = append(lines[:at], append([]string{""}, lines[at:]...)...)
+		}
 	}
 	path := filepath.Join(dir, "keys.txt")
 	os.WriteFile(path, []byte(strings.Join(lines, "\n")+"\n"), 0644)
